@@ -610,47 +610,60 @@ def k_unb(req):
     return S(bytes(out))
 
 
+def k_unbblock(req):
+    return [k_unb({"lit": l}) for l in req["lits"]]
+
+
 # ---------------------------------------------------------------- capture-state sequences
 
 
 def k_capseq(req):
-    """reference-main-regular-expressions.md, 'Resetting captures'.
-    steps: ["m", subject, regex, ci] | ["l", literal] | ["r"] (match against null)."""
+    """reference-main-regular-expressions.md, 'Regex captures for the =~ operator' and 'Resetting captures'.
+    steps: ["m", subject, regex, ci, negate] | ["l", literal] | ["r"] (match against null) |
+           ["f", subject, regex, ci, literal] (a user-defined function that matches and returns the literal: own frame)."""
     state = None  # None: never matched / reset; else list of 10 strings
     out = []
+
+    def domatch(subject, regex, ci):
+        r = re.compile(regex, re.IGNORECASE if ci else 0)
+        m = r.search(subject)
+        if m is None:
+            return False, [""] * 10
+        return True, [(m.group(g) if g <= r.groups and m.group(g) is not None else "") for g in range(10)]
+
+    def lit(state, text):
+        if state is None:
+            return S(text)
+        res, i = [], 0
+        while i < len(text):
+            if text[i] == "\\" and i + 1 < len(text) and text[i + 1].isdigit():
+                res.append(state[int(text[i + 1])])
+                i += 2
+            else:
+                res.append(text[i])
+                i += 1
+        return S("".join(res))
+
     for st in req["steps"]:
         if st[0] == "m":
-            r = re.compile(st[2], re.IGNORECASE if st[3] else 0)
-            m = r.search(st[1])
-            if m is None:
-                state = [""] * 10
-                out.append("b:false")
-            else:
-                state = [(m.group(g) if g <= r.groups and m.group(g) is not None else "") for g in range(10)]
-                out.append("b:true")
+            ok, state = domatch(st[1], st[2], st[3])
+            if st[4]:
+                ok = not ok
+            out.append("b:true" if ok else "b:false")
         elif st[0] == "r":
             state = None
             out.append("-")
+        elif st[0] == "f":
+            ok, inner = domatch(st[1], st[2], st[3])
+            out.append(lit(inner, st[4]))  # the caller's captures are untouched
         else:
-            lit = st[1]
-            if state is None:
-                out.append(S(lit))
-            else:
-                res, i = [], 0
-                while i < len(lit):
-                    if lit[i] == "\\" and i + 1 < len(lit) and lit[i + 1].isdigit():
-                        res.append(state[int(lit[i + 1])])
-                        i += 2
-                    else:
-                        res.append(lit[i])
-                        i += 1
-                out.append(S("".join(res)))
+            out.append(lit(state, st[1]))
     return out
 
 
 KINDS = {"unary": k_unary, "substr": k_substr, "pad": k_pad, "index": k_index, "regex": k_regex, "ssub": k_ssub,
          "split": k_split, "decode": k_decode, "fmt": k_fmt, "hexfmt": k_hexfmt, "fmtstr": k_fmtstr, "format": k_format, "json": k_json, "jsonenc": k_jsonenc,
-         "unb": k_unb, "capseq": k_capseq}
+         "unb": k_unb, "unbblock": k_unbblock, "capseq": k_capseq}
 
 
 def main():
